@@ -49,10 +49,23 @@ def root_name(e: ast.AST) -> str | None:
 
 
 class Provenance:
-    def __init__(self, fn: Fn, source: Callable[[ast.Call], "set[str] | None"], scalar: Callable[[ast.AST], bool]) -> None:
+    def __init__(
+        self,
+        fn: Fn,
+        source: Callable[[ast.Call, list], "set[str] | None"],
+        scalar: Callable[[ast.AST], bool],
+        attr_tags: "Callable[[ast.Attribute], set[str] | None] | None" = None,
+        assume: "Callable[[ast.AST, dict], bool | None] | None" = None,
+    ) -> None:
+        """source(call, tags of the positional arguments) -> tags of the call's result (None: not a source);
+        attr_tags(attribute expression) -> additional tags of an attribute read;
+        assume(if statement, state on its entry) -> True / False if the test is known to have that value (only that branch is
+        followed), None otherwise."""
         self.fn = fn
         self.source = source
         self.scalar = scalar
+        self.attr_tags = attr_tags
+        self.assume = assume
         self.tags: dict[int, Tags] = {}
         self.before: dict[int, dict[str, Tags]] = {}
         self._run()
@@ -97,7 +110,14 @@ class Provenance:
             if isinstance(n, ast.AST):
                 self.before[id(n)] = dict(st)
                 self._stmt(n, st)
+            skip = None
+            if isinstance(n, ast.If) and self.assume is not None:
+                known = self.assume(n, self.before[id(n)])
+                if known is not None:
+                    skip = not known
             for m in g.successors(n):
+                if skip is not None and g[n][m].get("labels") == {skip}:
+                    continue
                 if m not in states:
                     states[m] = dict(st)
                     work.append(m)
@@ -170,10 +190,12 @@ class Provenance:
         if isinstance(e, ast.Name):
             return st.get(e.id, EMPTY)
         if isinstance(e, ast.Attribute):
+            extra = frozenset(self.attr_tags(e) or ()) if self.attr_tags is not None else EMPTY
             fk = field_key(e)
             if fk is not None:
-                return self.get(st, fk)
-            return self._ev(e.value, st)
+                self._ev(e.value, st) if not isinstance(e.value, ast.Name) else None
+                return self.get(st, fk) | extra
+            return self._ev(e.value, st) | extra
         if isinstance(e, ast.Call):
             recv = EMPTY
             if isinstance(e.func, ast.Attribute):
@@ -183,11 +205,13 @@ class Provenance:
             else:
                 recv = self._ev(e.func, st)
             args = []
+            pos = []
             for a in [*e.args, *[k.value for k in e.keywords]]:
                 v = self._ev(a, st)
+                pos.append(v)
                 if not self.scalar(a):
                     args.append(v)
-            src = self.source(e)
+            src = self.source(e, pos)
             if src is not None:
                 return frozenset(src)
             out = recv
